@@ -452,7 +452,7 @@ func analyseSubpictureParts(parts subpictureParts, format *DecimalFormat) subpic
 
 	integerGroupPositions := getGroupPositions(parts.Integer, format.GroupSeparator, isDigit, false)
 	fractionalGroupPositions := getGroupPositions(parts.Fractional, format.GroupSeparator, isDigit, true)
-	groupSize := getGroupSize(integerGroupPositions)
+	groupSize := getGroupSize(integerGroupPositions, runeCountInStringFunc(parts.Integer, isDigit))
 
 	minIntegerSize := runeCountInStringFunc(parts.Integer, isDecimalDigit)
 	scalingFactor := minIntegerSize
@@ -528,7 +528,10 @@ func getGroupPositions(s string, sep rune, fn func(rune) bool, lookLeft bool) []
 	return positions
 }
 
-func getGroupSize(positions []int) int {
+// getGroupSize returns the size of the groups if the grouping
+// separators of the integer part (which has the given number
+// of digit positions) are regular, and 0 otherwise.
+func getGroupSize(positions []int, digits int) int {
 
 	if len(positions) == 0 {
 		return 0
@@ -539,6 +542,13 @@ func getGroupSize(positions []int) int {
 		if indexInt(positions, factor*(i+1)) == -1 {
 			return 0
 		}
+	}
+
+	// Every multiple of the group size inside the picture
+	// must have a separator: "0000,000" does not ask for a
+	// separator every three digits.
+	if factor*(len(positions)+1) < digits {
+		return 0
 	}
 
 	return factor
